@@ -10,6 +10,10 @@ mod sub;
 
 use super::{ConstMontyParams, Retrieve, div_by_2};
 use mul::BoxedMontyMultiplier;
+#[cfg(crypto_bigint_verif)]
+pub(crate) use mul::{almost_montgomery_mul, almost_montgomery_mul_by_one};
+#[cfg(crypto_bigint_verif)]
+pub(crate) use pow::verif_boxed_pow_montgomery_form;
 
 use crate::{BoxedUint, Limb, Monty, Odd, Word};
 use alloc::sync::Arc;
@@ -148,6 +152,21 @@ impl BoxedMontyParams {
             mod_neg_inv: P::MOD_NEG_INV,
             mod_leading_zeros: P::MOD_LEADING_ZEROS,
         }
+    }
+}
+
+#[cfg(crypto_bigint_verif)]
+impl BoxedMontyParams {
+    /// Verification hook: the private fields
+    /// `(one, r2, r3, mod_neg_inv, mod_leading_zeros)`.
+    pub fn verif_fields(&self) -> (&BoxedUint, &BoxedUint, &BoxedUint, Limb, u32) {
+        (
+            &self.one,
+            &self.r2,
+            &self.r3,
+            self.mod_neg_inv,
+            self.mod_leading_zeros,
+        )
     }
 }
 
